@@ -1830,8 +1830,8 @@ package zygo
 // types of the two objects agree: two arrays, two ints) first compares their types as the
 // language sees them: an array of strings held in a ([]string) field is not overwritten by [1 2 3]
 //@ ghost typesCompared := false @entry
-//@ ghost typesCompared := true @after call Type[0]
-//@ ghost payloadType := ret0 @after call Type[0]
+//@ ghost typesCompared := true @after call Type[2]
+//@ ghost payloadType := ret0 @after call Type[2]
 //@ C17 assert overwrites-only-by-the-same-declared-type @before call Set[0]: typesCompared && payloadType == ptr.PointedToType
 
 // C03: between taking the snapshot and attaching it to the closure nothing edits it
